@@ -557,10 +557,11 @@ class Authorization(Endpoint):
             # Apply the same policy as for one passed by reference.
             _ver_request = request.get(verified_claim_name("request"))
             _header = getattr(_ver_request, "jws_header", None)
-            if _ver_request is not None and _header is not None:
-                self.allowed_request_algorithms(
-                    client_id, context, _header.get("alg", "RS256"), "sign"
-                )
+            if _ver_request is not None:
+                # An object without a signature layer (only encrypted, anybody can encrypt
+                # to the provider's public key) is an unsigned one
+                _alg = "none" if _header is None else _header.get("alg", "RS256")
+                self.allowed_request_algorithms(client_id, context, _alg, "sign")
                 if _ver_request.get("client_id", client_id) != client_id:
                     raise ValueError("The request object names another client")
                 # from_jwt() picks the verification keys by issuer
